@@ -125,7 +125,7 @@ def declared_theorems(pid):
     if not os.path.exists(p):
         return []
     src = _strip_comments(open(p).read())
-    return re.findall(r"^\s*(?:@\[[^\]]*\]\s*)?theorem\s+([A-Za-z0-9_'.]+)", src, re.M)
+    return re.findall(r"^\s*(?:@\[[^\]]*\]\s*)?theorem\s+([A-Za-z0-9_'.?!]+)", src, re.M)
 
 
 class Driver:
